@@ -54,6 +54,8 @@ CONSTANTS
   Conn,      \* sock: endpoint 1 connects ("none" | "ok" | "refused")
   Allow,     \* known-finding triggers admitted into the corpus (normally {})
   WireCap,   \* sock: histories keep at most this many unread units in a socket (kernel buffers are finite)
+  Stall,     \* sock: the peer never reads and more than the kernel's socket buffer is queued: after the first
+             \* burst of write events (an amount the model leaves open) the writer's socket is never writable again
   OneWay     \* TRUE: only endpoint 1 writes, only the far end is configured (narrow exhaustive alphabets)
 
 VARIABLES st, hist
@@ -96,6 +98,7 @@ InitB(e) ==
     last |-> 0,                     \* ghost: time of the last successful transfer into / restart of the read direction
     \* socket part
     evr |-> FALSE, evw |-> FALSE, ioord |-> <<>>, wire |-> 0, eof |-> FALSE,
+    stalled |-> FALSE,              \* sock, Stall: the kernel buffer is full
     icb |-> FALSE,                  \* filter: bufferevent_filtered_inbuf_cb enabled
     conn |-> IF Kind = "sock" /\ Conn # "none" /\ e = 1 THEN "new" ELSE "ok" ]
 
@@ -228,7 +231,7 @@ SockDisable(S, e, evs) ==
   LET S1 == IF "R" \in evs THEN SockDelR(S, e) ELSE S
   IN IF "W" \in evs /\ S1.b[e].conn # "ing" THEN SockDelW(S1, e) ELSE S1
 (* bufferevent_socket_outbuf_cb *)
-SockOutCb(S, e) == IF "W" \in S.b[e].en /\ ~S.b[e].evw /\ S.b[e].ws = {} /\ S.b[e].conn \in {"ok", "ing"}
+SockOutCb(S, e) == IF "W" \in S.b[e].en /\ ~S.b[e].evw /\ S.b[e].ws = {} /\ S.b[e].conn \in {"ok", "ing", "bad"}
                    THEN SockAddW(S, e) ELSE S
 
 ----------------------------------------------------------------------------
@@ -362,6 +365,12 @@ OpRead(S, e, k) ==
                       !.open = @ \/ (S.b[e].rp /\ S.b[e].in - d < S.b[e].rlo)]
   IN IF d > 0 THEN InputDrained(S0, e) ELSE S
 
+(* bufferevent_trigger_event(bev, what, BEV_TRIG_DEFER_CALLBACKS): the flags join whatever is already pending *)
+FSet(m) == (IF m % 2 = 1 THEN {"RD"} ELSE {}) \cup (IF (m \div 2) % 2 = 1 THEN {"WR"} ELSE {})
+           \cup (IF (m \div 16) % 2 = 1 THEN {"EOF"} ELSE {}) \cup (IF (m \div 32) % 2 = 1 THEN {"ERR"} ELSE {})
+           \cup (IF (m \div 64) % 2 = 1 THEN {"TMO"} ELSE {})
+OpTrig(S, e, m) == EvD(S, e, FSet(m))
+
 OpEnable(S, e, evs) ==
   LET impl == (evs \ (IF S.b[e].rs # {} THEN {"R"} ELSE {})) \ (IF S.b[e].ws # {} THEN {"W"} ELSE {})
   IN BeEnable([S EXCEPT !.b[e].en = @ \cup evs], e, impl)
@@ -418,12 +427,14 @@ OpConnect(S) ==
 
 Legal(S, e, a) ==
   /\ S.b[e].alive
-  /\ (OneWay => IF a = "write" THEN e # 2 ELSE (a \in {"enable", "disable", "wm", "tmo", "script", "read"} => e = 2))
-  /\ (a = "write" => ~S.b[e].fin /\ S.b[e].conn # "bad")
+  /\ (OneWay => IF a = "write" THEN e # 2 ELSE (a \in {"enable", "enableW", "disable", "wm", "tmo", "script", "read"} => e = 2))
+  /\ (a = "write" => ~S.b[e].fin)
   /\ (IsSock(e) /\ S.b[e].conn = "new" => a \in {"connect", "script", "tmo", "wm"})
   /\ (a = "connect" => IsSock(e) /\ S.b[e].conn = "new")
   /\ (Kind = "sock" /\ e = 2 /\ S.b[1].conn = "new" => FALSE)
-  /\ (S.b[e].conn = "bad" => a \in {"free", "clr", "script"})
+  \* after a refused connect: free / clear; re-arming the write side only in directed scripts (which re-enable
+  \* EV_WRITE explicitly: whether the refusal itself disabled it depends on how the kernel reported it)
+  /\ (S.b[e].conn = "bad" => (a \in {"free", "clr", "script"} \/ (S.fs # 0 /\ a \in {"write", "enableW"})))
 
 (* extra actions of callback scripts *)
 ApplyExtra(S, e, xa) ==
@@ -527,6 +538,13 @@ SockWriteCb(S, e) ==
       connecting == B.conn = "ing"
   IN IF connecting /\ Conn = "refused"
      THEN Ev([SockDelR(SockDelW([S0 EXCEPT !.b[e].conn = "bad"], e), e) EXCEPT !.b[e].conn = "bad"], e, {"ERR"})
+     \* writing on the socket whose connect was refused fails: ERROR|WRITING, never CONNECTED
+     ELSE IF B.conn = "bad"
+     THEN (IF B.out > 0 THEN Ev(OpDisable(S0, e, {"W"}), e, {"ERR", "WR"}) ELSE TrigW(SockDelW(S0, e), e))
+     \* Stall: some bytes go out (how many is the kernel's business), the event stays added and its timeout
+     \* restarts (event_persist_closure); from then on the socket is not writable
+     ELSE IF Stall /\ ~connecting /\ B.ws = {} /\ B.out > 0
+     THEN [S0 EXCEPT !.b[e].stalled = TRUE]
      ELSE LET S1 == IF connecting THEN Ev([S0 EXCEPT !.b[e].conn = "ok"], e, {"CONN"}) ELSE S0
               stop == connecting /\ ("W" \notin S1.b[e].en \/ S1.b[e].ws # {})
               n == Min(S1.b[e].out, WrCap)
@@ -542,7 +560,7 @@ RECURSIVE AddReady(_, _, _)
 AddReady(S, e, ord) ==
   IF ord = <<>> THEN S
   ELSE LET d == Head(ord)
-           rdy == IF d = "r" THEN (S.b[e].wire > 0 \/ S.b[e].eof) ELSE TRUE
+           rdy == IF d = "r" THEN (S.b[e].wire > 0 \/ S.b[e].eof) ELSE ~(Stall /\ S.b[e].stalled)
        IN AddReady(IF rdy THEN Enq(S, IF d = "r" THEN "rio" ELSE "wio", e) ELSE S, e, Tail(ord))
 Dispatch(S, x) == IF Kind = "sock" /\ S.b[x].alive THEN AddReady(S, x, S.b[x].ioord) ELSE S
 
@@ -619,16 +637,18 @@ AStep(S1, op, r) == ForcedOK(op) /\ Step(S1, op, r)
 
 Quiet(S) == \A x \in Bases : S.aq[x] = <<>>
 IoReady(S) == Kind = "sock" /\ \E e \in {1, 2} : S.b[e].alive /\
-                 ((S.b[e].evr /\ (S.b[e].wire > 0 \/ S.b[e].eof)) \/ S.b[e].evw)
+                 ((S.b[e].evr /\ (S.b[e].wire > 0 \/ S.b[e].eof)) \/ (S.b[e].evw /\ ~(Stall /\ S.b[e].stalled)))
 
 Api ==
   /\ st.closing = 0 /\ Len(hist) < Bound
   /\ LET S == [st EXCEPT !.log = <<>>] IN
      \/ \E e \in App, n \in Sizes : Has("write") /\ Legal(S, e, "write") /\ n > 0
           /\ AStep(OpWrite(S, e, n), [a |-> "write", e |-> e, n |-> n], 0)
+     \/ \E e \in App, m \in {33, 34, 65, 66} : Has("trig") /\ Legal(S, e, "trig")
+          /\ AStep(OpTrig(S, e, m), [a |-> "trig", e |-> e, f |-> m], 0)
      \/ \E e \in App, k \in Drains : Has("read") /\ Legal(S, e, "read") /\ k > 0 /\ S.b[e].in > 0
           /\ AStep(OpRead(S, e, k), [a |-> "read", e |-> e, n |-> k], 0)
-     \/ \E e \in App, m \in {2, 4, 6} : Has("enable") /\ Legal(S, e, "enable") /\ ("R" \in Dirs(m) => ~S.b[e].eofd)
+     \/ \E e \in App, m \in {2, 4, 6} : Has("enable") /\ Legal(S, e, IF m = 4 THEN "enableW" ELSE "enable") /\ ("R" \in Dirs(m) => ~S.b[e].eofd)
           /\ AStep(OpEnable(S, e, Dirs(m)), [a |-> "enable", e |-> e, m |-> m], 0)
      \/ \E e \in App, m \in {2, 4, 6} : Has("disable") /\ Legal(S, e, "disable")
           /\ AStep(OpDisable(S, e, Dirs(m)), [a |-> "disable", e |-> e, m |-> m], 0)
